@@ -535,6 +535,21 @@ func rawMutants(si *stepInfo, req *rt.Wire, rng *vh.RNG, limit int) []rawMut {
 					r.Headers[ckKey] = []string{strings.Join(keep, "; ")}
 				}
 				mk(r, "raw:delete-cookie", pathString(s.path), replaceAt(si.Payload, s.path, nil), false)
+				// a cookie of a type that needs conversion carrying something that does not convert
+				if bt, _ := d.Effective(s.attr); bt.Kind == "prim" {
+					bad := ""
+					switch {
+					case isIntPrim(bt.Prim), isUintPrim(bt.Prim), isFloatPrim(bt.Prim):
+						bad = "12abc"
+					case bt.Prim == "Boolean":
+						bad = "maybe"
+					}
+					if bad != "" {
+						r := cloneRaw(base)
+						r.Headers[ckKey] = []string{strings.Join(append(append([]string{}, keep...), w+"="+bad), "; ")}
+						mk(r, "raw:malformed-cookie", pathString(s.path), si.Payload, true)
+					}
+				}
 			}
 		}
 	}
